@@ -122,9 +122,10 @@ type Sched struct {
 	steps     int
 	switches  int
 	stop      bool
-	nowSkew   int64 // nanoseconds added to the readings of NowUnique so far
-	lastNowG  int   // goroutine of the last NowUnique reading
-	dead      bool  // teardown has begun: every instrumented operation exits its goroutine
+	nowSkew   int64         // nanoseconds added to the readings of NowUnique so far
+	wallStep  time.Duration // sum of the injected wall-clock steps
+	lastNowG  int           // goroutine of the last NowUnique reading
+	dead      bool          // teardown has begun: every instrumented operation exits its goroutine
 	crash     *Crash
 	lastRun   *G
 	start     time.Time
@@ -637,9 +638,19 @@ func NowUnique() time.Time {
 		s.nowSkew++
 		s.lastNowG = g.ID
 	}
-	d := s.nowSkew
+	d := s.nowSkew + int64(s.wallStep)
 	s.mu.Unlock()
 	return time.Now().Add(time.Duration(d))
+}
+
+// StepWallClock moves the wall clock seen by NowUnique by d (negative = backwards), as an NTP step or a VM resume does. Only
+// wall-clock readings are affected: durations, timers and deadlines run on the monotonic clock, in Go as in the simulation.
+func StepWallClock(d time.Duration) {
+	if s := active.Load(); s != nil {
+		s.mu.Lock()
+		s.wallStep += d
+		s.mu.Unlock()
+	}
 }
 
 // fine is set for the duration of a run that asked for fine-grained interleaving (read by the goroutines of that run only)
